@@ -624,6 +624,40 @@ fn forest(t: &[&str], nav: bool) -> String {
     toks.join(" ")
 }
 
+// ------------------------------------------------------------------ EntriesRaw::new with any offset
+
+// <be> <version> <fmt64> <asz> <offset> <body hex> <abbrev hex> <abbrev offset>
+fn rawnew(t: &[&str]) -> String {
+    let en = endian(t[1]);
+    let encoding = gimli::Encoding {
+        version: t[2].parse().unwrap(),
+        format: if t[3] == "1" { Format::Dwarf64 } else { Format::Dwarf32 },
+        address_size: t[4].parse().unwrap(),
+    };
+    let off = u(t[5]) as usize;
+    let body = hex(t[6]);
+    let abb = hex(t[7]);
+    let aoff = u(t[8]) as usize;
+    let tbl = match DebugAbbrev::new(&abb, en).abbreviations(gimli::DebugAbbrevOffset(aoff)) {
+        Ok(t) => t,
+        Err(e) => return err(&e),
+    };
+    let mut raw = gimli::EntriesRaw::new(EndianSlice::new(&body, en), encoding, &tbl, UnitOffset(off));
+    let mut out = Vec::new();
+    let mut entry = DebuggingInformationEntry::null();
+    let mut error = None;
+    while !raw.is_empty() {
+        match raw.read_entry(&mut entry) {
+            Ok(_) => out.push(show_entry(&entry, entry.depth())),
+            Err(e) => {
+                error = Some(e);
+                break;
+            }
+        }
+    }
+    format!("ok {}", with_err(";", out, error))
+}
+
 // ------------------------------------------------------------------ corpus
 
 fn corpus_dir() -> String {
@@ -699,6 +733,7 @@ pub fn run(t: &[&str]) -> String {
         "c02.header" | "c02.headerbytes" => header(t),
         "c02.forest" => forest(t, false),
         "c02.nav" => forest(t, true),
+        "c02.rawnew" => rawnew(t),
         "c02.corpus" => corpus(t),
         _ => format!("unknown-stream {}", t[0]),
     }
